@@ -421,3 +421,21 @@ def r9(rr, repo):
         nm = U(n.targets[0])
         guarded = or_empty(n.value) or any(isinstance(x, ast.If) and (f'{nm} is None' in U(x.test) or U(x.test) == f'not {nm}') for x in walk_scope(fn))
         rr.ob("a 'safe_metrics' key with no value is read as the empty list", guarded, mod, n, witness=U(n)[:100], key='null-means-empty')
+
+
+@rule('C16.R10', "in lock-down mode nothing but what was asked for leaves: the one facet entry that is not a metric - the raw per-frame subject data - is added only when raw-data export was switched on explicitly "
+                 "(and there is something to add)")
+def r10(rr, repo):
+    mod, exp = repo.find(f'{BR}::OTelLineageExporter.export')
+    stores = [n for n in walk_scope(exp) if isinstance(n, ast.Assign) and isinstance(n.targets[0], ast.Subscript) and q.const_str(n.targets[0].slice) is not None and 'raw' in n.targets[0].slice.value]
+    rr.floor('stores of raw subject data into the exported facet', len(stores), 1, mod, exp)
+    for n in stores:
+        g = q.effective_guards(n, exp)
+        conj = []
+        for t, p in g:
+            conj += [(x.strip().strip('()'), True) for x in t.split(' and ')] if (p and ' and ' in t) else [(t, p)]
+        on = any(p and t.replace(' ', '') == 'self._export_raw_data' for t, p in conj) and not any((not p) and 'self._export_raw_data' in t for t, p in conj)
+        rr.ob('raw subject data is added to the facet only when self._export_raw_data is on', on, mod, n, witness=str(g)[:200], key='raw-data-opt-in')
+    _, init = repo.find(f'{BR}::OTelLineageExporter.__init__')
+    dflt = [n for n in walk_scope(init) if isinstance(n, ast.Assign) and U(n.targets[0]) == 'self._export_raw_data']
+    rr.floor('initialisations of the raw-data switch', len(dflt), 1, mod, init)
